@@ -290,6 +290,10 @@ def run(ctx):
     # ------------------------------------------------------------------ C03.WEEKDAY
     check_weekday_table(ctx, add, rname)
 
+    # ---------------------------------------------------------------- C03.ARGS
+    from ..rules_common import check_call_arguments
+    check_call_arguments(ctx, "C03.ARGS", "C03")
+
 
 def check_weekday_table(ctx, add, rname):
     prog = ctx.prog
